@@ -13,6 +13,22 @@ namespace detail {
 enum FunctionFlags : uint32_t { kFFlagsNone = 0, kFFlagsDetached = 1, kFFlagsCancelled = 2 };
 
 struct TimedTaskImpl {
+  // Claim the right to call func. The claim (inProgress) is taken BEFORE the cancelled check, and
+  // ~TimedTask sets the cancelled flag BEFORE it waits for inProgress to drain (both seq_cst): either
+  // the caller sees the cancellation and backs off without touching func, or the destructor sees
+  // the claim and waits for release() before it destroys func.
+  bool tryClaim() {
+    inProgress.fetch_add(1, std::memory_order_seq_cst);
+    if (flags.load(std::memory_order_seq_cst) & kFFlagsCancelled) {
+      inProgress.fetch_sub(1, std::memory_order_release);
+      return false;
+    }
+    return true;
+  }
+  void release() {
+    inProgress.fetch_sub(1, std::memory_order_release);
+  }
+
   alignas(kCacheLineSize) std::atomic<size_t> count{0};
   std::atomic<size_t> timesToRun;
   std::atomic<uint32_t> flags{kFFlagsNone};
@@ -35,9 +51,11 @@ struct TimedTaskImpl {
       auto wrap = [&f, this, me = std::move(me)]() mutable {
         if (!(flags.load(std::memory_order_acquire) & kFFlagsCancelled)) {
           if (!f()) {
+            // Stop further runs. func is not cleared here: the scheduler thread may be inside
+            // func (kicking off the next run) at this very moment; it is released by ~TimedTask
+            // or together with this object.
             timesToRun.store(0, std::memory_order_release);
-            flags.fetch_or(kFFlagsCancelled, std::memory_order_acq_rel);
-            func = {};
+            flags.fetch_or(kFFlagsCancelled, std::memory_order_seq_cst);
           }
           count.fetch_add(1, std::memory_order_acq_rel);
         }
